@@ -52,6 +52,7 @@ type sbCase struct {
 	NModels     int        `json:"n_models"`
 	Gated       []bool     `json:"gated"`     // per model: its loads wait for an explicit loadok/loadfail action
 	AutoFail    []bool     `json:"auto_fail"` // outcome script of the loads of non-gated models (by birth order)
+	CloseUs     int        `json:"close_us"`  // how long a runner takes to exit (real microseconds)
 	Perturb     uint32     `json:"perturb"`   // 0 = none; otherwise seed of the schedule perturbation at the scheduler's log points
 	Actions     []sbAction `json:"actions"`
 }
@@ -81,6 +82,7 @@ func sbGen(t *rapid.T) sbCase {
 		c.Gated = append(c.Gated, rapid.IntRange(0, 2).Draw(t, "gated") == 0)
 	}
 	c.AutoFail = rapid.SliceOfN(rapid.SampledFrom([]bool{false, false, false, true}), 6, 6).Draw(t, "auto_fail")
+	c.CloseUs = rapid.SampledFrom([]int{0, 0, 40, 150, 400}).Draw(t, "close_us")
 	if rapid.IntRange(0, 2).Draw(t, "perturbed") > 0 {
 		c.Perturb = rapid.Uint32Range(1, 1<<30).Draw(t, "perturb")
 	}
@@ -198,19 +200,20 @@ type sbSrv struct {
 	vram, total uint64
 	cpu         bool
 
-	gated    bool
-	gate     chan error
-	resolved bool // harness decided the load outcome (or the loader gave up)
-	loadOK   bool
-	pingFail bool
-	closes   int
-	bornAt   int
+	gated      bool
+	gate       chan error
+	resolved   bool // harness decided the load outcome (or the loader gave up)
+	loadOK     bool
+	pingFail   bool
+	closes     int // Close has returned
+	closeBegun int // Close has been entered
+	bornAt     int
 }
 
 func (s *sbSrv) Ping(ctx context.Context) error {
 	s.eng.mu.Lock()
 	defer s.eng.mu.Unlock()
-	if !s.loadOK || s.pingFail || s.closes > 0 {
+	if !s.loadOK || s.pingFail || s.closeBegun > 0 {
 		return errors.New("fake: runner not responding")
 	}
 	return nil
@@ -256,12 +259,10 @@ func (s *sbSrv) EstimatedVRAMByGPU(id string) uint64                            
 func (s *sbSrv) Close() error {
 	e := s.eng
 	e.mu.Lock()
-	defer e.mu.Unlock()
-	s.closes++
-	e.closeCount++
+	s.closeBegun++
 	e.logf("close inst=%d model=%d", s.id, s.model)
-	if s.closes > 1 {
-		e.violate("C01", "runner instance %d (model %d) shut down %d times", s.id, s.model, s.closes)
+	if s.closeBegun > 1 {
+		e.violate("C01", "runner instance %d (model %d) shut down %d times", s.id, s.model, s.closeBegun)
 	}
 	if !s.resolved {
 		e.violate("C01", "runner instance %d (model %d) shut down while its load is still in progress for the request that started it", s.id, s.model)
@@ -271,6 +272,21 @@ func (s *sbSrv) Close() error {
 			e.violate("C01", "runner instance %d (model %d) shut down while request %d still uses it", s.id, s.model, r.id)
 		}
 	}
+	pause := e.c.CloseUs
+	e.mu.Unlock()
+	// A runner process takes a while to exit; until Close returns it still occupies memory and counts as running.
+	// Real time (the scheduler holds its locks here, virtual time could not advance): stretches the window, decides nothing.
+	if pause > 0 {
+		for i := 0; i < 10; i++ {
+			runtime.Gosched()
+		}
+		ts := syscall.Timespec{Nsec: int64(pause) * 1000}
+		syscall.Nanosleep(&ts, nil)
+	}
+	e.mu.Lock()
+	s.closes++
+	e.closeCount++
+	e.mu.Unlock()
 	return nil
 }
 
@@ -499,12 +515,12 @@ func (e *sbEngine) requester(r *sbReq, okCh chan *runnerRef, errCh chan error) {
 			case r.finished:
 				// the request was cancelled before this reply was seen: whatever it is handed is released at once
 				// by the scheduler and is no longer "in progress" for C01
-				if inst != nil && inst.closes == 0 {
+				if inst != nil && inst.closeBegun == 0 {
 					r.granted = inst
 				}
 			case inst == nil:
 				e.violate("C01", "request %d was handed a runner without a server (already unloaded)", r.id)
-			case inst.closes > 0:
+			case inst.closeBegun > 0:
 				e.violate("C01", "request %d was handed runner instance %d after it had been shut down", r.id, inst.id)
 			case inst.path != r.mdl.ModelPath:
 				e.violate("C01", "request %d for model %d was handed a runner of model %d", r.id, r.model, inst.model)
